@@ -88,6 +88,9 @@ def judge_sequence(seq, fam, terminated):
         if code == 0x00:
             if first_header is None:
                 first_header = u["header_id"]
+                if u["header_id"] == "SH3":
+                    # this header differs from the family's only in the picture coding mode
+                    fam = dict(fam, fields=not fam["fields"])
             elif u["header_id"] != first_header:
                 return False, "sequence-header-changed"
         elif code in PICTURES:
